@@ -11,16 +11,20 @@ import z3
 
 Z3_TIMEOUT_MS = int(os.environ.get('PYVC_Z3_TIMEOUT_MS', '10000'))
 CLI_TIMEOUT_S = int(os.environ.get('PYVC_CLI_TIMEOUT_S', '12'))
-# Budgets of the in-process z3 are given as *resource limits* (z3's deterministic step counter, about 2.5 million units
-# per second on an idle core), not as wall-clock time: the verdict of a query then does not depend on how busy the
-# machine is. The nominal "ms" budgets are converted with this factor; the wall-clock time-out is only a safety net.
-RLIMIT_PER_MS = int(os.environ.get('PYVC_RLIMIT_PER_MS', '2500'))
-WALL_FACTOR = 20
+# Budgets of the in-process z3: a *resource limit* (z3's deterministic step counter; between 0.1 and 2.5 million units per
+# second on an idle core, depending on the theories involved) together with a generous wall-clock limit.
+#  - queries made while VCs are generated (feasibility of a branch, kind of a value) decide which paths and VCs exist:
+#    their budget is essentially the deterministic one (wall limit = 20 x nominal), so generation does not depend on load;
+#  - discharging a VC: proofs on the pinned tree take < 3 s; the resource limit is far above that and the wall limit is
+#    6 x the nominal budget, so a machine that is several times slower still reaches the same verdict;
+#  - satisfiability covers: small budget (an inconclusive cover falls back to the canary).
+BUDGETS = {'gen': (2500, 20), 'vc': (10000, 6), 'cover': (2500, 4)}
 
 
-def set_budget(solver, nominal_ms):
-    solver.set('rlimit', int(nominal_ms) * RLIMIT_PER_MS)
-    solver.set('timeout', int(nominal_ms) * WALL_FACTOR)
+def set_budget(solver, nominal_ms, kind='gen'):
+    per_ms, wall = BUDGETS[kind]
+    solver.set('rlimit', min(int(nominal_ms) * per_ms, 4_000_000_000))
+    solver.set('timeout', int(nominal_ms) * wall)
 
 
 def _to_smt2(pc, neg_goal) -> str:
@@ -79,7 +83,7 @@ def ematch_check(pc, neg, timeout_ms=8000, auto_config=True):
     s.set('smt.mbqi', False)
     if not auto_config:
         s.set('smt.auto_config', False)
-    set_budget(s, timeout_ms)
+    set_budget(s, timeout_ms, 'vc')
     s.add(*pc)
     s.add(neg)
     r = s.check()
@@ -93,11 +97,22 @@ def ematch_check(pc, neg, timeout_ms=8000, auto_config=True):
     return 'unknown'
 
 
-def check_valid(pc, goal, want_model=True, all_backends=False, z3_timeout_ms=None, ematch_probe=False, short=False):
+def check_valid(pc, goal, want_model=True, all_backends=False, z3_timeout_ms=None, ematch_probe=False, short=False,
+                cvc5_first=False):
     """-> dict(verdict=proved|refuted|unknown, backend, ms, model (z3 ModelRef|None), detail)."""
     t0 = time.time()
     neg = z3.Not(goal)
     quantified = _has_quantifier(list(pc) + [neg])
+    if cvc5_first and not all_backends and os.path.exists('/usr/bin/cvc5'):
+        # string-heavy contracts (declared by the contract): cvc5 decides these in seconds where z3 exhausts its budget
+        try:
+            v = _run_cli(['/usr/bin/cvc5', '--strings-exp', f'--tlimit={CLI_TIMEOUT_S * 1000}', '--lang=smt2'],
+                         _fix_for_cvc5(_to_smt2(pc, neg)), CLI_TIMEOUT_S)
+        except Exception:  # noqa: BLE001
+            v = 'unknown'
+        if v == 'unsat':
+            return {'backend': 'cvc5-1.0', 'model': None, 'detail': '', 'verdict': 'proved', 'all': {'cvc5-1.0': 'proved'},
+                    'ms': int((time.time() - t0) * 1000)}
     if quantified and not all_backends:
         # quantified VCs: plain e-matching without the automatic strategy selection is the most stable configuration
         # (seconds instead of timeouts); only 'unsat' is used from this run
@@ -105,7 +120,7 @@ def check_valid(pc, goal, want_model=True, all_backends=False, z3_timeout_ms=Non
             return {'backend': 'z3-%s (e-matching, no auto-config)' % z3.get_version_string(), 'model': None, 'detail': '',
                     'verdict': 'proved', 'all': {'z3-ematch': 'proved'}, 'ms': int((time.time() - t0) * 1000)}
     s = z3.Solver()
-    set_budget(s, z3_timeout_ms or Z3_TIMEOUT_MS)
+    set_budget(s, z3_timeout_ms or Z3_TIMEOUT_MS, 'vc')
     s.add(*pc)
     s.add(neg)
     r = s.check()
@@ -182,9 +197,9 @@ def _fix_for_cvc5(text: str) -> str:
     return text
 
 
-def satisfiable(pc, timeout_ms=5000):
+def satisfiable(pc, timeout_ms=2500):
     s = z3.Solver()
-    set_budget(s, timeout_ms)
+    set_budget(s, timeout_ms, 'cover')
     s.add(*pc)
     r = s.check()
     verdict = 'sat' if r == z3.sat else ('unsat' if r == z3.unsat else 'unknown')
